@@ -347,6 +347,9 @@ def r11d(rep, F, fns):
             if fors:
                 from engine.shape import for_loop
                 idx, start, cond, stride = for_loop(fn, fors[0])
+                init = fn.nodes.get(fors[0].get('init') or 0)
+                if init and init['k'] == 'DeclStmt' and init['decls'] and init['decls'][0].get('init'):
+                    start = lin.lin(fn, init['decls'][0]['init'], lin.local_env(fn))
                 want = {('div', lin.canon({'std::vector::size(this.vector_)': 1}), 2): 1, 1: -1}
                 calls = [c for c in fn.walk(fors[0]['body']) if c.get('callee') == 'ompl::BinaryHeap::percolateDown']
                 if start != want:
